@@ -240,7 +240,7 @@ pub fn miri_slice(r: &mut Report, n: usize, shard: usize) -> usize {
 
 pub fn run(ctx: &Ctx) -> i32 {
     let mut report = ctx.report("C16", "exploration");
-    report.rule = "exhaustive: (style, length, trailing-data) for every representable length of BER-TLV/APDU (0..65535), LLVAR (0..99), LLLVAR (0..999), Fixed<1..17> (payload 0..N) with trailing data of 0/1/300 bytes and, for the two-byte-length styles, trailing data of exactly len-1, len, len+1 and byte-swapped-len bytes, and trailing data that begins with one / two copies of the prefix itself; plus every byte string of length 0..3 through the four prefix parsers. A case is non-trivial when the statement claims a definite outcome for it (all round-trip cases; parser inputs whose prefix bytes are well-formed for the style). Distinct = distinct (style,length,trailing) / (parser,input).".into();
+    report.rule = "exhaustive: (style, length, trailing-data) for every representable length of BER-TLV/APDU (0..65535), LLVAR (0..99), LLLVAR (0..999), Fixed<1..17> (payload 0..N) with trailing data of 0/1/300 bytes and, for the two-byte-length styles, trailing data of exactly len-1, len, len+1 and byte-swapped-len bytes, and trailing data that begins with one / two copies of the prefix itself; plus every byte string of length 0..3 through the four prefix parsers (styles alternating per input); plus the styles interleaved: the same / the neighbouring length through all 24 orderings of the four styles back to back on one thread. A case is non-trivial when the statement claims a definite outcome for it (all round-trip cases; parser inputs whose prefix bytes are well-formed for the style). Distinct = distinct (style,length,trailing) / (parser,input).".into();
     report.exhaustive = Some(true);
     report.assumptions = vec![
         "independent shortest-form formulas and prefix parsers of refcodec::codec are the oracle".into(),
@@ -284,6 +284,48 @@ pub fn run(ctx: &Ctx) -> i32 {
         }
         if shard == 0 {
             fixed_cases!(r, 1, 2, 3, 4, 5, 6, 7, 8, 9, 10, 11, 12, 13, 14, 15, 16, 17);
+        }
+    });
+    // (c) the styles interleaved on one thread: the same (and a neighbouring) length through every ordering of the
+    //     styles back to back, so that nothing one style leaves behind (a cache, a scratch buffer) reaches the next
+    sharded(&mut report, threads, |shard, r| {
+        let orders: Vec<Vec<Style>> = {
+            let mut out = vec![];
+            let idx = [0usize, 1, 2, 3];
+            // all 24 permutations
+            for a in idx {
+                for b in idx {
+                    for c in idx {
+                        for d in idx {
+                            let p = [a, b, c, d];
+                            let mut seen = [false; 4];
+                            if p.iter().all(|x| !std::mem::replace(&mut seen[*x], true)) {
+                                out.push(p.iter().map(|i| STYLES[*i]).collect());
+                            }
+                        }
+                    }
+                }
+            }
+            out
+        };
+        let mut n = shard;
+        while n <= 65535 {
+            if n <= 1000 || n % 257 == 0 || (n & (n + 1)) == 0 || !quick {
+                for (oi, order) in orders.iter().enumerate() {
+                    if n > 1000 && oi % 6 != 0 {
+                        continue;
+                    }
+                    for (k, st) in order.iter().enumerate() {
+                        // same length, and every other step the neighbouring one
+                        let m = if k % 2 == 1 && oi % 2 == 1 { n + 1 } else { n };
+                        if m <= st.max() {
+                            check_roundtrip(r, *st, m, &[0x5a]);
+                            r.count("interleaved_style_calls", 1);
+                        }
+                    }
+                }
+            }
+            n += threads;
         }
     });
     // (b) parsers on every string of length 0..=3, sharded by first byte
